@@ -23,7 +23,7 @@ ASSUMPTIONS = ["user-supplied purification modules have a zero auxiliary bias (t
 COUNTS = ("states = histories (no merging); transitions = operations executed; traces_validated_against_impl = histories whose every "
           "invariant held")
 OPS = ["reinit", "fit-sgd", "fit-momentum", "fit-adam", "fit-weight-decay", "fit-nobases", "mutate-am", "mutate-ph"]
-MODES = ["sizes", "sizes-default", "module", "module-default-hidden"]
+MODES = ["sizes", "sizes-default", "sizes-gpu-flag", "module", "module-default-hidden"]
 DATA = torch.tensor([[0.0, 1.0, 1.0], [1.0, 1.0, 0.0], [1.0, 0.0, 0.0]], dtype=torch.double)
 BASES = np.array([list("ZZZ"), list("XYZ"), list("YZX")])
 
@@ -86,6 +86,12 @@ def construct(kind, mode, why):
     elif mode == "sizes":
         st = call(T, 3, 2, gpu=False) if kind != "mixed" else call(T, 3, 2, 4, gpu=False)
         shapes = (3, 2, 4)
+    elif mode == "sizes-gpu-flag":
+        # gpu=True on a machine without a GPU is documented to fall back to the CPU with a warning
+        st = call(T, 3, 2, gpu=True) if kind != "mixed" else call(T, 3, 2, 4, gpu=True)
+        shapes = (3, 2, 4)
+        if any(p.device.type != "cpu" for net in st.networks for p in getattr(st, net).parameters()) or str(st.device) != "cpu":
+            why.append(("construct:gpu-flag-without-gpu-does-not-fall-back-to-cpu", None))
     else:
         st = call(T, 3, gpu=False)
         shapes = (3, 3, 3)
